@@ -25,9 +25,22 @@ def gen_spec(rng, res, root, p_bad_value=0.15, p_missing=0.12,
             break
         if rng.random() < p_missing:
             # no section of that name or type - also spelled so that it
-            # could not be a type name at all
-            comps.append(rng.choice(["nosuch", "zz9", "nosuch", "1st",
-                                     "\u00e9t\u00e9", "k_:x", "no such"]))
+            # could not be a type name at all, or so that it is only a
+            # piece of a type or name that does occur
+            cands = ["nosuch", "zz9", "nosuch", "1st", "\u00e9t\u00e9",
+                     "k_:x", "no such"]
+            taken = set()
+            for k_ in kids:
+                taken.add((k_["type"] or "").lower())
+                taken.add((k_["name"] or "").lower())
+            for k_ in kids:
+                for w in ((k_["type"] or ""), (k_["name"] or "")):
+                    for piece in (w[:-1], w[1:], w[:1], w[1:-1], w + "x"):
+                        if piece and piece.lower() not in taken and \
+                                "/" not in piece and "=" not in piece:
+                            cands.append(piece)
+                            cands.append(piece)
+            comps.append(rng.choice(cands))
             info["missing"] = True
             node = None
             break
